@@ -129,10 +129,16 @@ def build_env(env, how, base):
         for ri, rd in enumerate(repo_dicts, start=1):
             rdir = os.path.join(base, "conf", "r%d" % ri)
             os.makedirs(rdir, exist_ok=True)
-            text = yaml.safe_dump(rd).replace(base, "{{ root }}")          # template parameter
-            with open(os.path.join(rdir, "memento.yaml"), "w") as f:
-                f.write(text)
-            repos.append(ConfigurationRepository.from_file(os.path.join(rdir, "memento.yaml"), root=base))
+            if ri % 2:
+                text = yaml.safe_dump(rd).replace(base, "{{ root }}")          # template parameter
+                with open(os.path.join(rdir, "memento.yaml"), "w") as f:
+                    f.write(text)
+                repos.append(ConfigurationRepository.from_file(os.path.join(rdir, "memento.yaml"), root=base))
+            else:                                                              # template whose parameter has a default, none passed
+                text = yaml.safe_dump(rd).replace(base, "{{ root | default('%s') }}" % base)
+                with open(os.path.join(rdir, "memento.yaml"), "w") as f:
+                    f.write(text)
+                repos.append(ConfigurationRepository.from_file(os.path.join(rdir, "memento.yaml")))
         return Environment(name="e", base_dir=base, repos=repos)
     raise ValueError(how)
 
